@@ -25,8 +25,9 @@ ANSI = re.compile(r"\x1b\[[0-9;]*m")
 MODES = [["check", "sanity"], ["check", "all"], ["check", "sanity", "its"], ["check", "all", "its"], ["check", "all", "its-stave"]]
 
 
-def desc_line(pk):
-    """one link's packets [(rdh, payload)] -> the `grammar` stream line (the description the Coq grammar renders)"""
+def desc_line(pk, with_payload=False):
+    """one link's packets [(rdh, payload)] -> the `grammar` stream line (the description the Coq grammar renders);
+    with_payload: the `grammarits` line, whose pages carry their payload bytes"""
     r0 = pk[0][0]
     fee = struct.unpack_from("<H", r0, 2)[0]
     cruid_dw = struct.unpack_from("<H", r0, 14)[0]
@@ -44,7 +45,10 @@ def desc_line(pk):
         r = h[0][0]
         f = "%d,%d,%d,%d" % (struct.unpack_from("<I", r, 20)[0], struct.unpack_from("<I", r, 16)[0] & 0xFFF, struct.unpack_from("<I", r, 32)[0],
                              struct.unpack_from("<I", r, 48)[0])
-        pg = lambda x: "%d.%d.%d" % (len(x[1]), x[0][13], struct.unpack_from("<H", x[0], 52)[0])
+        if with_payload:
+            pg = lambda x: "%s.%d.%d" % (x[1].hex().upper() or "-", x[0][13], struct.unpack_from("<H", x[0], 52)[0])
+        else:
+            pg = lambda x: "%d.%d.%d" % (len(x[1]), x[0][13], struct.unpack_from("<H", x[0], 52)[0])
         parts.append("%s:%s:%s" % (f, ",".join(pg(x) for x in h[:-1]), pg(h[-1])))
     return head + " ; " + " ; ".join(parts)
 
@@ -100,6 +104,24 @@ def run(tier, seed):
             chk.disagreements.append({"stream": "grammar", "description": line[:600], "wf": out[:4], "first_different_rdh": k,
                                       "detail": "the generator's RDH sequence is not the rendering of its description by Spec/Grammar.v (or wf_link_rdh is false)"})
     chk.add_stream("grammar", len(glines), gd, [], distribution={"links": len(glines)})
+    # ---- ... and every generated link is a member of the WORD-level grammar (Spec/GrammarIts.v) that the ITS-tier theorem quantifies
+    #      over: the extracted membership test (sound by C01_membership_test_sound) accepts it, and rendering it gives the bytes back
+    ilines = [desc_line(m["pk"], with_payload=True) for m in gmeta]
+    ires = core.run_lines(core.FPMODEL, "grammarits", ilines, shards=core.NCPU)
+    idist = set()
+    members = 0
+    for m, line, out in zip(gmeta, ilines, ires):
+        want = ",".join((r + p_).hex().upper() for r, p_ in m["pk"])
+        npages = len(m["pk"])
+        idist.add((npages > 6, m["pk"][0][0][24], out[:10]))
+        if out.startswith("wf=1 its=1 "):
+            members += 1
+        if not out.startswith("wf=1 its=1 ") or out[11:] != want:
+            chk.disagreements.append({"stream": "grammar-its", "description": line[:800], "verdict": out[:11],
+                                      "detail": "a generated conforming link is not accepted by the membership test of the word-level grammar "
+                                                "(Spec/GrammarItsCheck.v link_witness), or its rendering differs from the generated bytes"})
+    chk.add_stream("grammar-its", len(ilines), idist, [{"description": ilines[0][:200] + "...", "verdict": ires[0][:11]}] if ilines else [],
+                   distribution={"links": len(ilines), "members_of_the_word_level_grammar": members})
 
     # ---- every mode is silent
     def work(j):
